@@ -47,10 +47,18 @@ RECURSIVE FoldV(_, _, _, _)
 FoldV(term(_), k, n, zero) == IF k > n THEN zero ELSE Add(term(k), FoldV(term, k + 1, n, zero))
 
 Active(c, x) == IsEq(c) \/ Cval(c, x) > 0
-\* linear penalty: f + rho sum |h| + rho sum max(0, g);  subgradient sign(0) = +1 as in the code
+\* linear penalty: f + rho sum |h| + rho sum max(0, g).  Where a constraint value is exactly zero the penalty has a kink: any element of
+\* the subdifferential is a matching subgradient ([-1, 1] rho grad h for an equality, [0, 1] rho grad g for an inequality); the code takes
+\* sign(0) = +1 for equalities and 0 for inequalities, the specification accepts the integer choices -1 / 0 / +1 (0 / +1).
 LinVal(obj, cs, rho, x) == Fval(obj, x) + Fold(LAMBDA k : IF Active(cs[k], x) THEN rho * Abs(Cval(cs[k], x)) ELSE 0, 1, Len(cs), 0)
-LinGrad(obj, cs, rho, x) == Add(Fgrad(obj, x), FoldV(LAMBDA k : IF Active(cs[k], x)
-                                   THEN Scale(rho * (IF Cval(cs[k], x) >= 0 THEN 1 ELSE -1), Cgrad(cs[k], x)) ELSE Zero(Len(x)), 1, Len(cs), Zero(Len(x))))
+Kinks(cs, x) == {k \in DOMAIN cs : Cval(cs[k], x) = 0}
+LinGradWith(obj, cs, rho, x, t) ==
+    Add(Fgrad(obj, x), FoldV(LAMBDA k : IF k \in DOMAIN t THEN Scale(rho * t[k], Cgrad(cs[k], x))
+                                        ELSE IF Active(cs[k], x) THEN Scale(rho * (IF Cval(cs[k], x) > 0 THEN 1 ELSE -1), Cgrad(cs[k], x))
+                                        ELSE Zero(Len(x)), 1, Len(cs), Zero(Len(x))))
+LinGrad(obj, cs, rho, x) == LinGradWith(obj, cs, rho, x, [k \in Kinks(cs, x) |-> IF IsEq(cs[k]) THEN 1 ELSE 0])     \* the code's choice
+LinGradOK(obj, cs, rho, x, g) == \E t \in [Kinks(cs, x) -> {-1, 0, 1}] :
+                                    (\A k \in Kinks(cs, x) : IsEq(cs[k]) \/ t[k] >= 0) /\ g = LinGradWith(obj, cs, rho, x, t)
 \* quadratic penalty: f + rho sum h^2 + rho sum max(0, g)^2
 QuadVal(obj, cs, rho, x) == Fval(obj, x) + Fold(LAMBDA k : IF Active(cs[k], x) THEN rho * Cval(cs[k], x) * Cval(cs[k], x) ELSE 0, 1, Len(cs), 0)
 QuadGrad(obj, cs, rho, x) == Add(Fgrad(obj, x), FoldV(LAMBDA k : IF Active(cs[k], x)
